@@ -106,8 +106,15 @@ impl ResourceMonitor {
                 _ => None,
             })
             .collect();
+        // A process is alive while it has no result, or while it is a sleeping session process
+        // (persistent, successful result: it can be resumed and keeps what it owns).
         let results_now = if sys.workers.iter().all(|w| w.mid_step.is_none() && !w.dead) {
-            Some(super::process_results(sys))
+            let sleeping = super::sleeping_pids(sys);
+            let mut results = super::process_results(sys);
+            for p in sleeping {
+                results.insert(p, None);
+            }
+            Some(results)
         } else {
             None
         };
@@ -196,10 +203,12 @@ impl ResourceMonitor {
     pub fn terminal(&mut self, sys: &mut System) -> Vec<(String, String)> {
         let mut out = vec![];
         let results = super::process_results(sys);
+        let sleeping = super::sleeping_pids(sys);
         let open: Vec<ResourceId> = sys.backend.borrow().open.keys().copied().collect();
         for r in open {
             let Some(o) = self.owner.get(&r) else { continue };
-            let terminated = results.get(o).map(|x| x.is_some()).unwrap_or(false);
+            let terminated =
+                results.get(o).map(|x| x.is_some()).unwrap_or(false) && !sleeping.contains(o);
             if terminated {
                 out.push((
                     "I-close-missing".to_string(),
